@@ -1164,7 +1164,7 @@ C10_KEYS = {
 C10_VAL = {'i32': 'int32(7)', 'i64': 'int64(7)', 'f32': 'float32(7)', 'box': 'int64(7)', 'none': None}
 
 # operations eligible for RacePair: the point operations + size named by the property
-C10_PAIR = ['put', 'putupdate', 'putfirst', 'putlast', 'add', 'addfirst', 'addlast', 'addnoover', 'addifexist', 'unipoint',
+C10_PAIR = ['put', 'putupdate', 'putfirst', 'putfirstnew', 'putlast', 'putlastnew', 'add', 'addfirst', 'addlast', 'addlastnew', 'addnoover', 'addifexist', 'unipoint',
             'get', 'getlru', 'containskey', 'haskey', 'containsvalue', 'remove', 'removefirst', 'removelast', 'clear',
             'size', 'isempty', 'isfull']
 # every other public method: self-deadlock obligation only
@@ -1183,6 +1183,9 @@ def c10_ops(t):
     for o in C10_PAIR:
         if o == 'putupdate':
             pair.append(o)
+        elif o in ('putfirstnew', 'putlastnew', 'addlastnew'):
+            if o[:-3] in have:  # the same method with a key that is not in the pre-state (eviction / growth paths)
+                pair.append(o)
         elif o in ('size',):
             pair.append(o)
         elif o == 'isempty':
@@ -1264,6 +1267,10 @@ func zzPre10_%(N)s(n int) *%(N)s {
     w('		m.Put(%s)' % kv(K1))
     w('		m.Put(%s)' % kv(K2))
     w('	}')
+    if 'setmax' in t['ops']:
+        w('	if n == 4 {')
+        w('		m.SetMax(3) // full: the next insertion of a new key takes the eviction path')
+        w('	}')
     w('	return m')
     w('}')
     w('')
@@ -1299,6 +1306,12 @@ func zzPre10_%(N)s(n int) *%(N)s {
             case(o, 'm.PutFirst(%s)' % kv(K2))
         elif o == 'putlast':
             case(o, 'm.PutLast(%s)' % kv(K0))
+        elif o == 'putfirstnew':
+            case(o, 'm.PutFirst(%s)' % kv(KN))
+        elif o == 'putlastnew':
+            case(o, 'm.PutLast(%s)' % kv(KN))
+        elif o == 'addlastnew':
+            case(o, 'm.AddLast(%s)' % kv(KN))
         elif o == 'add':
             case(o, 'm.Add(%s)' % kv(K0))
         elif o == 'addfirst':
@@ -1395,17 +1408,19 @@ func zzPre10_%(N)s(n int) *%(N)s {
 //     RacePair on one fresh shared instance: a common cell with a write and no common lock is a race.
 //vf:paths=20000 deadline=4m
 func ZZ_C10_%(N)s() {
-	n := []int{0, 1, 3}[zzvf.Choose(3)]
+	n := %(pre)s
 	a := zzvf.Choose(len(zzOps10_%(N)s))
 	opA := zzOps10_%(N)s[a]
 	zzvf.Guard("deadlock/%(N)s/"+opA, zzOp10_%(N)s(zzPre10_%(N)s(n), opA))
 	if a < %(np)d {
 		opB := zzOps10_%(N)s[a+zzvf.Choose(%(np)d-a)]
-		m := zzPre10_%(N)s(n)
-		zzvf.RacePair("race/%(N)s/"+opA+"|"+opB, zzOp10_%(N)s(m, opA), zzOp10_%(N)s(m, opB))
+		zzvf.RacePairFresh("race/%(N)s/"+opA+"|"+opB, func() (func(), func()) {
+			m := zzPre10_%(N)s(n)
+			return zzOp10_%(N)s(m, opA), zzOp10_%(N)s(m, opB)
+		})
 	}
 	zzvf.Reach("%(N)s")
-}""" % dict(N=N, np=len(pair)))
+}""" % dict(N=N, np=len(pair), pre=('[]int{0, 1, 3, 4}[zzvf.Choose(4)] // 4 = three entries and the maximum reached' if 'setmax' in t['ops'] else '[]int{0, 1, 3}[zzvf.Choose(3)]')))
     body = '\n'.join(out)
     head = ['//vf:dir util/hmap', '//vf:race', 'package hmap', '',
             '// GENERATED by /verif/harness/gen_hmap.py -- do not edit. Property C10, type %s.' % N, '', 'import (']
